@@ -46,6 +46,9 @@ func (r *Rule) Ob(ok bool, construct string, pos token.Pos, msg string) {
 	r.Obligations++
 	key := r.ID + "|" + construct
 	r.keys[key] = true
+	if dumpKeys != nil {
+		dumpKeys = append(dumpKeys, fmt.Sprintf("%s\t%v", key, ok))
+	}
 	p := r.ctx.pos(pos)
 	if ok {
 		r.Discharged++
@@ -67,6 +70,9 @@ func (r *Rule) Unresolved(what string) {
 }
 
 func (r *Rule) Note(format string, a ...any) { r.Notes = append(r.Notes, fmt.Sprintf(format, a...)) }
+
+// dumpKeys (FDCHECK_DUMP_KEYS=<file>): every obligation key with its verdict, for comparing runs.
+var dumpKeys []string
 
 type ruleFn func(c *Ctx, r *Rule)
 
@@ -308,6 +314,10 @@ func finish(c *Ctx, prop, tier string, seed int, rules []*Rule, selftest map[str
 		ev.Assumptions = []string{}
 	}
 	b, _ := json.MarshalIndent(ev, "", " ")
+	if f := os.Getenv("FDCHECK_DUMP_KEYS"); f != "" {
+		sort.Strings(dumpKeys)
+		_ = os.WriteFile(f, []byte(strings.Join(dumpKeys, "\n")+"\n"), 0o644)
+	}
 	if os.Getenv("FDCHECK_NO_EVIDENCE") == "" {
 		if err := os.WriteFile(filepath.Join(evDir, prop+".json"), b, 0o644); err != nil {
 			fmt.Printf("cannot write evidence: %v\n", err)
